@@ -145,7 +145,11 @@ def _gen(rng):
             data[yv] = [(c2 - 1.0 if i in blips else c2 + rng.choice([0.5, 1.5])) for i in range(n)]   # q false at a few isolated samples
         rnd = [[rng.choice(sg.LATTICE) for _ in range(n * nv)] for _ in range(nc)]
         modular = {'key': json.dumps(ast), 'defs': [['p1', p_]], 'subs': ['p1 = %s;' % sg.to_text(p_)], 'top': 'out = ' + sg.to_text(top) + ';'}
-    return {'vars': vars_, 'ast': ast, 'n': n, 'data': data, 'rnd': rnd, 'modular': modular}
+    warm = None
+    if rng.random() < 0.2:
+        nw = rng.randint(1, 8)
+        warm = {'n': nw, 'data': world.gen_trace(rng, vars_, nw)}
+    return {'vars': vars_, 'ast': ast, 'n': n, 'data': data, 'rnd': rnd, 'modular': modular, 'warm': warm}
 
 
 def reported_positions(expl, vars_, n):
@@ -218,6 +222,16 @@ def run(sc):
     violated = [[nm, a] for nm, a in targets if refs[nm][0] < 0]
     try:
         spec = M.build(desc)
+        if sc.get('warm'):
+            # the object has a history: another log was evaluated and explained before this one
+            w = sc['warm']
+            try:
+                eval_discrete(ast, w['data'], w['n'])
+                M.dt_evaluate(spec, list(range(w['n'])), w['data'])
+                M.api('explain', spec.explain)
+                r.faults['object_explained_another_log_before'] += 1
+            except RefError:
+                pass
         out = M.dt_evaluate(spec, list(range(n)), data)
         r.api_calls += 3
         rho0 = out[0][1]
@@ -282,6 +296,10 @@ def run(sc):
 
 
 def shrinks(sc):
+    if sc.get('warm'):
+        c = dict(sc)
+        c['warm'] = None
+        yield c
     for c in common.shrink_discrete(sc):
         a = c['ast']
         if not sg.vars_of(a) or a[0] in ('var', 'const') or a[0] in sg.TERM_UN + sg.TERM_BIN:
